@@ -739,6 +739,9 @@ def battery():
     from sa.battery import M
     EP = "mpf/config_players/event_player.py"
     return [
+        M("combo switch forgets its delays by name", "mpf/devices/combo_switch.py", "    def _kill_delays(self):\n        self.delay.clear()", "    def _kill_delays(self):\n        for group in (1, 2):\n            self.delay.remove('switch_{}_active'.format(group))\n            self.delay.remove('switch_{}_inactive'.format(group))", "PAIR-8"),
+        M("logic block keeps its timeout on unload (F23 reverted)", "mpf/devices/logic_blocks.py", "        self.delay.remove(\"timeout\")\n        self._state = None", "        self._state = None", "PAIR-8"),
+        M("multiball keeps its delays on unload (F24 reverted)", "mpf/devices/multiball.py", "            self.stop()\n\n        self.delay.clear()\n", "            self.stop()\n", "PAIR-8"),
         M("start refused after flag", MD, "        if self.config['mode']['game_mode'] and not (self.machine.game and self.player):\n            self.warning_log(\"Can only start mode %s during a game. Aborting start.\", self.name)\n            return\n\n        if self._active:\n            self.debug_log(\"Mode is already active. Aborting start.\")\n            return\n\n        if self._starting:\n            self.debug_log(\"Mode already starting. Aborting start.\")\n            return\n\n        self._starting = True\n", "        if self._active:\n            self.debug_log(\"Mode is already active. Aborting start.\")\n            return\n\n        if self._starting:\n            self.debug_log(\"Mode already starting. Aborting start.\")\n            return\n\n        self._starting = True\n\n        if self.config['mode']['game_mode'] and not (self.machine.game and self.player):\n            self.warning_log(\"Can only start mode %s during a game. Aborting start.\", self.name)\n            return\n", "FLAG-1"),
         M("double start allowed", MD, "        if self._starting:\n            self.debug_log(\"Mode already starting. Aborting start.\")\n            return\n", "", "FLAG-1"),
         M("started event before active", MD, "        self.active = True\n        self._starting = False\n\n        for event_name in self.config['mode']['events_when_started']:", "        for event_name in self.config['mode']['events_when_started']:", "FLAG-1"),
